@@ -126,25 +126,25 @@ T = {
 
 # additions of the last rounds (DESIGN 8.4 "seventh round", 8.6, 8.7), appended to the texts above
 EXTRA = {
-    'C02': ' Later: the recomputed representation hash of every cell type (Merkle cells over pruned descendants included) through the M-INV hook.',
+    'C02': ' Later: the recomputed representation hash of every cell type (Merkle cells over pruned descendants included) through the M-INV hook. Round 9: the top cell rebuilt with its references as tuple / iterator / generator / map.',
     'C01': ' Later: bit arrays of little-endian storage order, bits handed out by load_bits, copy/deepcopy/pickle routes, second-order derivations of every product, recomputed representation hash of ordinary cells over exotic children. Round 8: M-INV compares calculate_representation_hash() with the hash for every cell of every type.',
     'C03': ' Later: the raw bytes in bytearray / memoryview / array containers. Round 8: a cell and its twin of another type in separate bags, both orders, every entry point.',
-    'C05': ' Later: every rejection also through Slice / Builder entry points and Boc(data).deserialize(cls) for each class. Round 8: one- and two-cell bags whose descriptor announces 1..4 references (self / dangling), with and without CRC.',
-    'C06': ' Later: snake chains up to 130 048 bytes, wide-item buffers, texts outside the Unicode normal forms. Round 8: external addresses given as byte strings / hex text by their own length (leading zero bits), ExternalAddress(None), copies of anycast addresses.',
-    'C07': ' Later: bits as iterators / generators / spaced bit strings, bytes-like objects with items wider than a byte (fits / one item too many) at every fill level. Round 8: 4..9 references through eight routes (constructors, Slice.to_cell, builder reference list edited, bags announcing 5-7 references), account ids that are not 256 bits, anycast depth 0 / 31, out-of-range values through every single-bit store.',
-    'C08': ' Later: looking is not using (repr, str, hash, ==, copy / pickle protocols), the public Cell / Slice constructors over the cell\'s and the caller\'s own arrays. Round 8: public argument-less recompute methods inside the histories with per-level hashes / recomputed representation hash in the registry, every VM value serialiser called directly, plain-bit-array cells looked at through parents / slices / builders.',
-    'C09': ' Later: keys entering through map_ / .map, anycast Address keys, combs nesting 450 / 600 / 1000 forks under the default recursion limit (recorded finding above ~490). Round 8: over-long bit-string / bytes keys whose extra leading bits are zero, anycast Address keys at 267 bits and at their own width, direct edits of .map between serialisations.',
-    'C10': ' Later: trees nesting 450 / 600 / 1000 forks under the default recursion limit (recorded finding above ~490).',
-    'C11': ' Later: forgeries of the proof cell itself (all 16 depth bits, length, reference count), pruned masks without slots, roots of account proofs that are not Merkle proofs, proofs through copy / pickle. Round 8: check_shard_proof - masterchain block + state + BinTree of shard descriptors encoded from block.tlb, honest proofs accepted, ten forgeries (other hash / seqno / workchain, state of another block, unknown shard, root counts, swapped roots) rejected.',
-    'C12': ' Later: validator set as tuple / generator / iterator / map / dict view; block id used before the check.',
-    'C13': ' Later: out-of-domain addresses built and rendered between the valid round trips.',
-    'C14': ' Later: id-like bytes where they must stay bytes, bytes-like field values, damaged parses and a storm of failing nested payloads between valid calls on one schemas object. Round 8: several TL objects in one bytes field (parsed to a list; what the parser returns must serialise back).',
+    'C05': ' Later: every rejection also through Slice / Builder entry points and Boc(data).deserialize(cls) for each class. Round 8: one- and two-cell bags whose descriptor announces 1..4 references (self / dangling), with and without CRC. Round 9: stored checksum replaced by particular values (all zero, all ones ...), one cell referenced 255..1000 times, a foreign bag of 65 600 cells with completely full cells.',
+    'C06': ' Later: snake chains up to 130 048 bytes, wide-item buffers, texts outside the Unicode normal forms. Round 8: external addresses given as byte strings / hex text by their own length (leading zero bits), ExternalAddress(None), copies of anycast addresses. Round 9: every anycast depth stored with exactly its size left, store_bit of a bit read with load_bits / preload_bits.',
+    'C07': ' Later: bits as iterators / generators / spaced bit strings, bytes-like objects with items wider than a byte (fits / one item too many) at every fill level. Round 8: 4..9 references through eight routes (constructors, Slice.to_cell, builder reference list edited, bags announcing 5-7 references), account ids that are not 256 bits, anycast depth 0 / 31, out-of-range values through every single-bit store. Round 9: capacity of builders derived four ways from cells of five origins (plain bit arrays of both storage orders included) at eleven fill levels.',
+    'C08': ' Later: looking is not using (repr, str, hash, ==, copy / pickle protocols), the public Cell / Slice constructors over the cell\'s and the caller\'s own arrays. Round 8: public argument-less recompute methods inside the histories with per-level hashes / recomputed representation hash in the registry, every VM value serialiser called directly, plain-bit-array cells looked at through parents / slices / builders. Round 9: class-level helpers through Cell, two subclasses and a Slice subclass in the order-independence probes.',
+    'C09': ' Later: keys entering through map_ / .map, anycast Address keys, combs nesting 450 / 600 / 1000 forks under the default recursion limit (recorded finding above ~490). Round 8: over-long bit-string / bytes keys whose extra leading bits are zero, anycast Address keys at 267 bits and at their own width, direct edits of .map between serialisations. Round 9: a dictionary of 2^17 entries (18 cells), hashed keys in maps narrower than a digest, bit-array keys refused or read in index order.',
+    'C10': ' Later: trees nesting 450 / 600 / 1000 forks under the default recursion limit (recorded finding above ~490). Round 9: mirrored entries whose values compare equal but encode differently (anycast addresses, a user class with a loose __eq__).',
+    'C11': ' Later: forgeries of the proof cell itself (all 16 depth bits, length, reference count), pruned masks without slots, roots of account proofs that are not Merkle proofs, proofs through copy / pickle. Round 8: check_shard_proof - masterchain block + state + BinTree of shard descriptors encoded from block.tlb, honest proofs accepted, ten forgeries (other hash / seqno / workchain, state of another block, unknown shard, root counts, swapped roots) rejected. Round 9: dictionaries hanging off the state\'s tail group pruned at their roots.',
+    'C12': ' Later: validator set as tuple / generator / iterator / map / dict view; block id used before the check. Round 9: validator sets with two entries of one public key.',
+    'C13': ' Later: out-of-domain addresses built and rendered between the valid round trips. Round 9: addresses whose checksum bits lie within one text character (found by search), every substitution.',
+    'C14': ' Later: id-like bytes where they must stay bytes, bytes-like field values, damaged parses and a storm of failing nested payloads between valid calls on one schemas object. Round 8: several TL objects in one bytes field (parsed to a list; what the parser returns must serialise back). Round 9: vectors as tuple / deque / dict view / range, nested objects of 70 kB and 300 kB in a bytes field, a block id as a dictionary key among keys of other types.',
     'C15': ' Later: exotic bodies, NFT data from address text, highload wallet data with queries, damaged parses before valid ones. Round 8: exotic bodies when header and inline state-init take all four references.',
-    'C16': ' Later: damaged versions of each cell parsed before the valid one. Round 8: McBlockExtra (key and non-key blocks, shard fees with and without extra currencies, signatures, recover / mint messages, config, sentinel).',
-    'C17': ' Later: re-serialisation of everything parsed, VmStackList directly, keyword order of continuations, failed-then-repaired serialisation, tuples / nesting / stacks up to 1000 (recorded finding above ~490 levels).',
-    'C18': ' Later: inputs built around every 2..8-byte constant of the library source; valid calls right after calls with invalid arguments.',
-    'C19': ' Later: leafless ladders ending in library / Merkle cells, equal DAGs made of distinct objects. Round 8: dictionary families measured against the input size n+e (three recorded findings: augmented parser on leafless ladders through both entry points, plain parser on shared subtrees that yield leaves).',
-    'C20': ' Later: the generator under a steered entropy source (rare digest contents, a run of 1500 rejected draws), word counts other than 24 (recorded finding).',
+    'C16': ' Later: damaged versions of each cell parsed before the valid one. Round 8: McBlockExtra (key and non-key blocks, shard fees with and without extra currencies, signatures, recover / mint messages, config, sentinel). Round 9: a shard tree of 2^16 leaves (17 cells), the same key-block cell parsed twice with the first result consumed in between.',
+    'C17': ' Later: re-serialisation of everything parsed, VmStackList directly, keyword order of continuations, failed-then-repaired serialisation, tuples / nesting / stacks up to 1000 (recorded finding above ~490 levels). Round 9: one continuation object (by identity) in two or three fields of another.',
+    'C18': ' Later: inputs built around every 2..8-byte constant of the library source; valid calls right after calls with invalid arguments. Round 9: inputs of 2^20 +- 1, 2 x 2^20, 2^24 + 5 bytes against the table-driven reference; byte orders built at run time and str subclasses.',
+    'C19': ' Later: leafless ladders ending in library / Merkle cells, equal DAGs made of distinct objects. Round 8: dictionary families measured against the input size n+e (three recorded findings: augmented parser on leafless ladders through both entry points, plain parser on shared subtrees that yield leaves). Round 9: allocation monitor (tracemalloc peak bounded by 8 MiB + 20 kB per input byte) on the BoC header product.',
+    'C20': ' Later: the generator under a steered entropy source (rare digest contents, a run of 1500 rejected draws), word counts other than 24 (recorded finding). Round 9: messages given as PyNaCl SignedMessage / bytes subclasses.',
 }
 
 
